@@ -8,7 +8,14 @@
 (*   scope : "pkg" (package level) | "func" | "lit" | "method"  (declared  *)
 (*           inside a function body / function literal / method body)      *)
 (*   file  : "go" | "go2" (ordinary compiled files) | "test" (_test.go) |  *)
-(*           "tagged" (excluded by a build constraint)                     *)
+(*           "tagged" (excluded by a build constraint) |                   *)
+(*           "genother" | "genfree" | "genown": compiled files that carry  *)
+(*           a generated-code header (another generator's conforming       *)
+(*           marker / a free-form DO NOT EDIT comment / mockery's own      *)
+(*           marker on a hand-kept file).  The statement excludes only     *)
+(*           non-interfaces, function-local types and unconfigured         *)
+(*           packages: interfaces in such files are interfaces of the      *)
+(*           package like any other.                                       *)
 (*                                                                         *)
 (* Contract layer:  Class(d) in {"yes","no","free"}.                       *)
 (*   "yes"  the property says this is an interface of the package          *)
@@ -28,7 +35,7 @@ FreeKinds == {"instAlias", "namedOver", "aliasOver", "union", "mixed"}
 NoKinds   == {"struct", "func", "aliasStruct", "genStruct", "instStruct", "basic"}
 Kinds     == YesKinds \cup FreeKinds \cup NoKinds
 
-CompiledFiles == {"go", "go2"}
+CompiledFiles == {"go", "go2", "genother", "genfree", "genown"}
 
 \* ------------------------------------------------------------------ contract
 Class(d) ==
